@@ -189,6 +189,7 @@ def c13_classify(c, i):
         except Exception:
             kinds = set()
         if "T" in kinds: out.append("has-timeout-event")
+        if any(r.startswith("t:") for r, _ in pairs): out.append("timeout-delivered")
         if "R" in kinds: out.append("has-raw-text-event")
         if c[3] != "0:0:-:0": out.append("pipeline-settings-nondefault")
     elif c[0] in ("c13.pipe", "c13.pipeout"):
@@ -200,10 +201,14 @@ def c13_classify(c, i):
             for t in i:
                 if t.startswith("out="): out.append("pipe:out=" + ("0" if t == "out=0" else "1+"))
                 elif t.startswith("left="): out.append("pipe:" + t if t == "left=0" else "pipe:left>0")
-                elif not t.startswith("in="): 
+                elif not t.startswith("in="):
                     lab = "pipe:status=" + t
                     if lab not in out: out.append(lab)
             out.append("pipe:metric-labels=" + c[4])
+            try:
+                if any(k == "T" for k, _ in _pipe_events(c)): out.append("pipe:silence-then-traffic")
+            except Exception:
+                pass
     elif c[0] == "c13.subst":
         kinds = sorted({t for t in c if t in ("cut", "trimto", "trim", "re")})
         out.append("filters=" + "+".join(kinds))
@@ -284,7 +289,7 @@ CFG = {
     "assumptions": [
         "thin glue over insane-json / library calls: validated by harness only: " + ", ".join(HARNESS_ONLY),
         "deep models elsewhere, harness-only here: " + ", ".join(f"{p} ({o})" for p, o in sorted(OTHERS_MODEL.items())),
-        "time-out events reach only actions that answered Collapse/Hold and every such action answers Discard (source fact holding-plugins-get-timeouts)",
+        "time-out events reach only the action that is busy (answered Collapse/Hold) at that point; the oracle accepts only Discard for them (Pass/Break/Hold forward or keep the nil-Root event, Collapse pins the processor to the silent stream); exec delivers a time-out to any busy plugin, the generator aims them at the plugins of source fact holding-plugins-get-timeouts",
         "k8s-multiline events carry the four k8s_* meta fields the k8s input always adds; events whose root is not an object are not sent to it",
         "encoding/json half of the re-parse check applies to events that were valid for encoding/json when they came in (insane-json accepts and re-emits .5, 1e, raw control bytes, unknown escapes)",
         "excluded configurations: throttle limiter_backend=redis (needs a server), decode csv invalid_line_mode=fatal and is_strict pipelines (exit is the documented behaviour)",
